@@ -153,13 +153,28 @@ def check(ctx, run):
                 run.fail(Finding("C14.R1", cl.qualname, f"{label}: {'; '.join(problems)}", "back-propagation through the hedging loss does not see the true dependence on the model",
                                  file=str(prog.modules[cl.module].path), line=cl.node.lineno, case=label))
     # ---- R2 recurrent path: the stored buffer is the model output object
-    hook = prog.functions.get("pfhedge._utils.hook.save_prev_output")
-    m = Obj(W.HEDGER, "mod")
+    # the hook(s) the constructor really installs (world.registered_hooks), not the one it is expected to install
+    from ..interp import Closure, FuncInfo
+    hooks = [h_ for h_ in W.registered_hooks(prog)]
+    if not hooks:
+        raise AnalysisError("Hedger.__init__ registers no forward hook")
+    wr = []
+    hook = None
+    import ast as _ast
+    drive = FuncInfo("synthetic.call_hook", "pfhedge.nn.modules.hedger", _ast.parse("def call_hook(hook, module, output):\n    return hook(module, (), output)\n").body[0])
+    init_fi = prog.lookup_method(W.HEDGER, "__init__")
+    for hk in hooks:
+        m = Obj(W.HEDGER, "mod")
+        out = Sym("out", ("tensor",))
+        hook = hook or (hk if isinstance(hk, FuncInfo) else getattr(hk, "fi", None) or init_fi)
+        try:
+            res = interp.explore(drive, [hk, m, out], {})  # a plain function, a lambda or a closure alike
+        except Unsupported as ex:
+            raise AnalysisError(f"Hedger.__init__ registers a forward hook that cannot be followed ({ex})")
+        wr += [e for r in res for e in r["events"] if e["kind"] == "register_buffer"]
     out = Sym("out", ("tensor",))
-    res = interp.explore(hook, [m, (), out], {})
-    wr = [e for r in res for e in r["events"] if e["kind"] == "register_buffer"]
     ok = len(wr) == 1 and keeps_graph(wr[0]["tensor"]) == out
-    run.oblige("C14.R2", "save_prev_output stores the output tensor itself (graph kept)", ok, str([str(e["tensor"]) for e in wr]))
+    run.oblige("C14.R2", "the installed forward hook stores the output tensor itself (graph kept)", ok, str([str(e["tensor"]) for e in wr]))
     if not ok:
         run.fail(Finding("C14.R2", hook.qualname, str([str(e['tensor']) for e in wr]), "the recurrent prev_hedge input is cut off from the autograd graph", file=str(prog.modules[hook.module].path), line=hook.node.lineno))
     ph = W.feature("PrevHedge", hedger=Obj(W.HEDGER, "hedger"))
@@ -311,3 +326,76 @@ def building_blocks_rule(ctx, run):
         if problems:
             run.fail(Finding("C14.R5", fi.qualname, "; ".join(problems)[:300], "a model built from this functional does not receive the gradient through it",
                              file=str(prog.modules[fi.module].path), line=fi.node.lineno))
+
+
+def module_forward_rule(ctx, run):
+    """R5m: the forward of every module class the library offers as (part of) a hedging model - every class of pfhedge.nn.modules that defines
+    or inherits a pfhedge-level forward, MultiLayerPerceptron and Naked included - passes gradients from its input to its output: no
+    graph-breaking construct on the slice (a forward that is absent, i.e. torch's own Sequential.forward, is trusted)."""
+    prog, interp = ctx.prog, ctx.interp
+    MODS = "pfhedge.nn.modules."
+    skip = ("pfhedge.nn.modules.loss.", "pfhedge.nn.modules.hedger.")
+    classes = sorted(q for q, ci in prog.classes.items() if q.startswith(MODS) and not q.startswith(skip) and not q.rsplit(".", 1)[-1].startswith("_"))
+    inp = W.tensor("input")
+    n = 0
+    for q in classes:
+        fwd = prog.lookup_method(q, "forward")
+        if fwd is None or not fwd.qualname.startswith("pfhedge."):
+            continue
+        short = q.rsplit(".", 1)[-1]
+        # a generic instance: attributes are materialised on demand, sub-modules are opaque callables
+        o = Obj(q, short.lower(), {})
+        if "bs." in q:
+            o.attrs.update(call=True, strike=W.fl("strike"), derivative=None)
+        if short == "WhalleyWilmott":
+            d_ = Obj("pfhedge.instruments.derivative.european.EuropeanOption", "deriv", {"strike": W.fl("K"), "call": True})
+            d_.attrs["underlier"] = Obj(W.PRIMARY, "ul", {"cost": W.fl("cost")})
+            o.attrs.update(a=W.fl("a"), derivative=d_, bs=Sym("ww.bs", ("callable",)))
+        if short == "Naked":
+            o.attrs.update(out_features=1)
+        nparams = len(fwd.node.args.args) - 1
+        if nparams != 1:
+            continue  # Clamp-like modules with several tensor arguments are covered through their functionals (R5)
+        interp.shapes["input"] = (W.integer("N"), W.integer("T"), 4)
+        try:
+            res = [r for r in interp.explore(fwd, [inp], {}, self_obj=o, max_paths=60) if not r["raises"]]
+        except Unsupported:
+            res = None
+        finally:
+            interp.shapes.pop("input", None)
+        if not res:
+            run.notes.append(f"C14.R5m: {short}.forward not interpreted on a generic instance")
+            continue
+        n += 1
+        problems = []
+        for r in res:
+            memo = {}
+
+            def dep(t):
+                if id(t) in memo:
+                    return memo[id(t)]
+                v = t == inp if isinstance(t, Sym) else any(dep(x) for x in args_of(t)) if isinstance(t, Op) else False
+                memo[id(t)] = v
+                return v
+            for s in data_walk(r["value"]):
+                if isinstance(s, Op) and s.op in BREAKERS and any(dep(x) for x in args_of(s)):
+                    problems.append(f"{s.op} on a value that depends on the input")
+                if isinstance(s, Op) and s.op == "tensor" and any(isinstance(x, Term) and dep(x) for x in flatten(s.args)):
+                    problems.append("torch.tensor(...) re-wraps (detaches) a value that depends on the input")
+            for e in r["events"]:
+                if e["kind"] == "with_enter" and any(getattr(c_, "attrs", {}).get("mode") == "no_grad" or (getattr(c_, "attrs", {}).get("mode") == "set_grad_enabled" and getattr(c_, "attrs", {}).get("arg") is not True) for c_ in e["ctx"]):
+                    problems.append("forward runs under a fixed no-grad region")
+        problems = sorted(set(problems))
+        run.oblige("C14.R5m", f"{short}.forward passes the gradient from its input", not problems, "; ".join(problems))
+        if problems:
+            run.fail(Finding("C14.R5m", fwd.qualname, f"{short}: " + "; ".join(problems)[:260], "a hedger built on this module does not receive the gradient through its (recurrent) input",
+                             file=str(prog.modules[fwd.module].path), line=fwd.node.lineno))
+    run.require("C14.R5m", 5)
+
+
+_check_before_r5m = check
+
+
+def check(ctx, run):  # noqa: F811
+    _check_before_r5m(ctx, run)
+    module_forward_rule(ctx, run)
